@@ -13,6 +13,7 @@ import tomllib
 
 import common
 import oracles
+import genrmkey
 from common import Agg, Ev, jstr, jnum, same_value, rand_value, rand_string, HOSTILE_CHARS
 
 try:
@@ -156,11 +157,12 @@ def yaml_sanitize(v):
     return v
 
 
-def emit_case(rng, agg, ev, v, emitter):
+def emit_case(rng, agg, ev, v, emitter, src_v=None):
     """Runs one (value, emitter) case."""
-    if "yaml" in emitter.lower():
+    if "yaml" in emitter.lower() and src_v is None:
         v = yaml_sanitize(v)
-    src_v = fancy(v, rng)
+    if src_v is None:
+        src_v = fancy(v, rng)
     detail = {"emitter": emitter, "value_src": src_v[:600]}
     sig_base = {"emitter": emitter}
 
@@ -386,6 +388,47 @@ def random_shard(args):
     return agg
 
 
+def history_shard(args):
+    """Objects that are the result of a history (inheritance, std.objectRemoveKey of the same key several times, shared
+    sub-objects, prior observation): every emitter must show exactly the fields the layer-deletion model calls visible."""
+    seed, n = args
+    rng = random.Random(seed)
+    agg = Agg()
+    ev = Ev(agg)
+    try:
+        for i in range(n):
+            emitter = rng.choice(EMITTERS)
+            hs = [genrmkey.gen(rng) for _ in range(rng.choice([1, 1, 2]))]
+            heads, roots, vals = [], [], []
+            for j, h in enumerate(hs):
+                head, root = genrmkey.render(h)
+                # several histories in one program: keep their local names apart
+                head = re.sub(r"\bB(\d+)\b", lambda m: "H%dB%s" % (j, m.group(1)), head)
+                root = re.sub(r"\bB(\d+)\b", lambda m: "H%dB%s" % (j, m.group(1)), root)
+                heads.append(head)
+                roots.append(root)
+                vals.append(genrmkey.model(h)[0])
+            pre = "".join(heads)
+            if emitter == "manifestYamlStream":
+                v, src = vals, "[" + ", ".join(roots) + "]"
+            elif emitter == "manifestPythonVars":
+                v = {"v%d" % j: x for j, x in enumerate(vals)}
+                src = "{" + ", ".join("v%d: %s" % (j, r) for j, r in enumerate(roots)) + "}"
+            elif len(hs) == 1:
+                v, src = vals[0], roots[0]
+            else:
+                v = {"p": vals[0], "q": [vals[1]]}
+                src = "{p: %s, q: [%s], hid:: %s}" % (roots[0], roots[1], roots[1])
+            emit_case(rng, agg, ev, v, emitter, src_v="(%s%s)" % (pre, src))
+            agg.count("history_objects_emitted")
+            agg.add("history_shapes", genrmkey.shape_key(hs[0]))
+            if i < 1:
+                agg.sample({"leg": "history", "emitter": emitter, "source": (pre + src)[:500], "value": common.jsonable(v)})
+    finally:
+        ev.close()
+    return agg
+
+
 def exhaustive_shard(args):
     """Every code point of a range and every sensitive key, as value, as key, first/last char."""
     seed, cps, keys = args
@@ -490,6 +533,9 @@ def run(tier, seed):
     shards = [(seed + i, cps[i::32], keys[i::32]) for i in range(32)]
     for a in common.pmap(exhaustive_shard, shards):
         total.merge(a)
+    nh = 4800 if quick else 300_000
+    for a in common.pmap(history_shard, [(seed * 1013 + i, nh // 16) for i in range(16)]):
+        total.merge(a)
     ncli = 320 if quick else 16000
     for a in common.pmap(cli_shard, [(seed * 13 + i, ncli // 16) for i in range(16)]):
         total.merge(a)
@@ -498,7 +544,9 @@ def run(tier, seed):
             "through 15 emitters; decoded by an own strict RFC 8259 parser (sorted keys, no duplicates, no raw "
             "controls) + Python json, ast.literal_eval, tomllib, an own reader of the emitted YAML subset + PyYAML, "
             "and round trips through std.parseJson/parseYaml; exhaustive over U+0000..U+02FF and boundary code points "
-            "(as value, key, first/last char) and over a list of sensitive plain keys; CLI default/-y/-m outputs. "
+            "(as value, key, first/last char) and over a list of sensitive plain keys; CLI default/-y/-m outputs; "
+            "history objects (genrmkey: inheritance chains with std.objectRemoveKey of the same key applied repeatedly, "
+            "shared sub-objects, prior observation) through every emitter against the layer-deletion model's visible fields. "
             "distinct_nontrivial = distinct (emitter, value) pairs whose document was decoded and compared.")
     return common.finish(PROP, tier, seed, total, rule, t0,
                          extra={"pyyaml": pyyaml.__version__ if pyyaml else None},
